@@ -9,6 +9,7 @@ mod core;
 mod doc;
 mod driver;
 mod hashseed;
+mod irrd;
 mod props;
 mod rsim;
 mod ssim;
@@ -43,6 +44,28 @@ fn main() {
             let spec = props::lookup(&args[2]).expect("property");
             let n = args.get(3).and_then(|n| n.parse().ok()).unwrap_or(2000);
             driver::determinism(spec, Tier::Quick, n)
+        }
+        Some("one") => {
+            // bgpfu-dst one <ID> <tier> seeded|enumerated <index>   (debugging aid; VERIF_LIVE=1 prints events live)
+            let spec = props::lookup(&args[2]).expect("property");
+            let tier = Tier::parse(&args[3]).expect("tier");
+            let index: u64 = args[5].parse().expect("index");
+            let id = if args[4] == "enumerated" { core::RunId::Enumerated { index } } else { core::RunId::Seeded { index } };
+            let o = core::execute_id(spec, driver::base_seed(), tier, &id, true);
+            for l in o.trace.unwrap_or_default() {
+                println!("  | {l}");
+            }
+            println!("{:?} log_hash={} tape_len={}", o.verdict, o.log_hash, o.tape.len());
+            0
+        }
+        Some("eval-time") => {
+            let db = irrd::Db::default();
+            for e in &args[2..] {
+                let t = std::time::Instant::now();
+                let r = irrd::reference_eval(&db, e);
+                println!("{e}: {:?} in {:?}", r.map(|v| v.len()), t.elapsed());
+            }
+            0
         }
         Some("list") => {
             for p in props::all() {
